@@ -287,9 +287,55 @@ const LOCALS: &[&str] = &[
     "./-x", "a\\b", "/a?b#c", "/a%20b",
 ];
 
+const BASE_SCHEMES: &[&str] = &["http", "https", "ssh", "git", "file", "ftp", "ftps"];
+
+/// every spelling of a scheme for which an alias in `Scheme::from` is plausible: `s`, `git+s`, `s+git`,
+/// `ssh+git`, `git+ssh`, `svn+ssh` for each known scheme `s`
+fn scheme_variants() -> Vec<String> {
+    let mut v: Vec<String> = Vec::new();
+    for s in BASE_SCHEMES {
+        for x in [s.to_string(), format!("git+{s}"), format!("{s}+git"), format!("svn+{s}"), format!("{s}+ssh")] {
+            if !v.contains(&x) {
+                v.push(x);
+            }
+        }
+    }
+    for x in ["ssh+git", "git+ssh", "svn+ssh"] {
+        if !v.iter().any(|y| y == x) {
+            v.push(x.to_string());
+        }
+    }
+    v
+}
+
+fn respell(s: &str, how: u64) -> String {
+    match how % 4 {
+        0 => s.to_string(),
+        1 => s.to_ascii_uppercase(),
+        2 => {
+            let mut c = s.chars();
+            match c.next() {
+                Some(f) => f.to_ascii_uppercase().to_string() + c.as_str(),
+                None => String::new(),
+            }
+        }
+        _ => s.chars().enumerate().map(|(i, c)| if i % 2 == 1 { c.to_ascii_uppercase() } else { c }).collect(),
+    }
+}
+
+fn gen_scheme(r: &mut Rng) -> String {
+    if r.chance(1, 2) {
+        r.pick(SCHEMES).to_string()
+    } else {
+        let v = scheme_variants();
+        let how = r.below(4);
+        respell(r.pick(&v[..]).as_str(), how)
+    }
+}
+
 fn gen_url_form(r: &mut Rng) -> Vec<u8> {
     let mut s = String::new();
-    s.push_str(*r.pick(SCHEMES));
+    s.push_str(&gen_scheme(r));
     s.push_str(if r.chance(29, 30) { "://" } else { ":/" });
     let user = *r.pick(USERS);
     let pw = *r.pick(PASSWORDS);
@@ -407,6 +453,21 @@ fn main() {
         "mailto:x@y", "data:text/plain,x", "ssh://host/%2e%2e/x", "ssh://host/a/../b",
     ] {
         do_roundtrip(&mut rep, s.as_bytes(), false);
+    }
+    // every scheme spelling x the things the url crate normalises for its "special" schemes only: upper-case
+    // hosts, default ports, empty paths, trailing dots — an alias to or from a special scheme breaks the round trip
+    for scheme in scheme_variants() {
+        for how in 0..4u64 {
+            let sch = respell(&scheme, how);
+            for host in ["HOST.XY", "host.", "Host", "h"] {
+                for port in ["", ":80", ":443", ":22", ":9418", ":21"] {
+                    for path in ["", "/", "/Repo"] {
+                        do_roundtrip(&mut rep, format!("{sch}://{host}{port}{path}").as_bytes(), false);
+                    }
+                }
+            }
+            do_roundtrip(&mut rep, format!("{sch}://User:Pw@HOST.XY:443").as_bytes(), false);
+        }
     }
     for n in [340usize, 341, 342, 1023, 1024, 1025] {
         for unit in ["a", "é", " "] {
